@@ -7,6 +7,7 @@ ok=0; bad=0
 for d in benign/*${1:-}*.diff; do
   n=$(basename "$d" .diff)
   case "$n" in
+    C[0-9][0-9]b2_*) props="${n%%b2_*}" ;;   # round b2 changes behaviour where the OWN property leaves it open: only that property's check must stay silent
     C0[1-5]b*|C10b*) props="C01 C02 C03 C04 C05 C10 C19" ;;
     C0[6-8]b*) props="C06 C07 C08 C19" ;;
     C09b*) props="C09 C02 C12 C19" ;;
